@@ -320,7 +320,10 @@ def run_case(ctx, case):
     prog, entry, inter, allowed, nexts = case['program'], case['entry'], case['interleaving'], case['allowed_time'], case['next']
     files = student_files(prog, entry)
     want_next = fresh_reference(files, nexts, case.get('history', 'fresh'))
-    sandbox, report = sc.new_sandbox(files, case.get('tracer', 'none'))
+    # (a grader that keeps each submission's report to herself: every command is then given that report)
+    sandbox, report = sc.new_sandbox(files, case.get('tracer', 'none'), own_report=case.get('report') == 'own')
+    sbx = sc.commands_in_use()
+    ctx.seen('reports', case.get('report', 'default'))
     ctx.seen('tracers', case.get('tracer', 'none'))
     sandbox.allowed_time = allowed
     if entry in ('call', 'evaluate'):
@@ -986,8 +989,9 @@ def public(case):
 
 
 def case_label(case):
-    return '%s/%s/%s/%.2f/%s/%s/%s/%s' % (case['program'], case['entry'], case['interleaving'], case['allowed_time'], ','.join(case['next']),
-                                           case.get('history', 'fresh'), case.get('threaded_via', 'argument'), case.get('tracer', 'none'))
+    return '%s/%s/%s/%.2f/%s/%s/%s/%s%s' % (case['program'], case['entry'], case['interleaving'], case['allowed_time'], ','.join(case['next']),
+                                             case.get('history', 'fresh'), case.get('threaded_via', 'argument'), case.get('tracer', 'none'),
+                                             '/own-report' if case.get('report') == 'own' else '')
 
 
 def all_cases(ctx):
@@ -1040,6 +1044,7 @@ def run(ctx):
             case['tracer'] = rng.choice(['none', 'native', 'native']) if c['interleaving'] in ('unforced', 'grader-first', 'zombie-after-next') else 'none'
             if 'threaded_via' not in case:
                 case['threaded_via'] = rng.choice(['argument', 'attribute']) if c['entry'] != 'import' else 'argument'
+            case['report'] = 'own' if rng.random() < 0.2 else 'default'
             run_case(ctx, case)
             if _CONTAMINATED[0]:
                 ctx.count('worker_stopped_after_a_student_thread_was_left_running')
